@@ -6,6 +6,8 @@ props = [json.loads(l)['id'] for l in open(os.path.join(V, 'properties.jsonl'))]
 COMMON_NOTE = ("Trusted: Lean 4.33.0 kernel (axioms propext, Quot.sound, Classical.choice only; audited on every run), the hand-written "
                "model named in DESIGN.md, and the sampled correspondence between that model and /repo's working tree.")
 CLAIMS = {
+ "C19": ("proof", "Link half: a Lean theorem (c19_link) says that if no header contributes a strong external definition then ANY set of translation units over ANY of the headers links; its hypothesis is a proof obligation (table_clean, by decide) re-established on every run for the symbol table regenerated from the working tree by compiling each header alone and listing strong symbols with nm — a new non-inline definition breaks the obligation and names the symbol; the link model is validated by really linking two-unit programs (umbrella headers, sampled pairs). Compile half (each header alone and first, TBB/MPI on and off): decided by the compiler alone, not a theorem — reported by the same check.",
+         "Lean 4 proof over a generated symbol table (translator: g++ -c + nm) + compiler/linker runs", "§5 C19"),
  "C20": ("proof", "Lean 4 theorems over the state-machine model of global_control (library-owned control + client controls): after set_global_tbb_concurrency(n) the active value is n for every call history, it bounds the parallelism from above in the presence of client controls, and the demos' option block applies --cores whenever parallel is selected, independent of verbose. Correspondence: real call sequences compared with tbb::global_control::active_value and with the number of distinct threads executing a parallel region; demos run under strace counting created threads for --cores n x verbose x unrelated flags.",
          "Lean 4 proof (state machine) + correspondence with active_value and thread counts", "§5 C20"),
  "C17": ("proof", "Lean 4 theorems over the literal model of SpVecGF2 for every operation history (canonical form, refinement to the dense GF(2) computation, size/product/sum laws); model tied to spvecgf2.hpp by differential replay of generated and exhaustive-short histories on the real class; an independent dense oracle decides the property on the implementation.",
